@@ -701,6 +701,74 @@ def hcco(h):
     h.ensure('one-value-per-fuel-flow', to_z3(I.len_(out)) == n)
 
 
+@unit('C12', 'kernels.leave-their-inputs-unchanged', ['AEIC.emissions.ei.nox:BFFM2_EINOx', 'AEIC.emissions.ei.hcco:EI_HCCO'],
+      replay='contracts.C12:replay_frame', timeout_ms=30000)
+def kernels_frame(h):
+    """The index functions are functions of their arguments: they return new arrays and leave the arrays (and certification
+    tables) they are given as they were.  One fuel-flow array goes through the NOx fit and then through the HC / CO fit in
+    the trajectory code, so a kernel that floors or clips its argument in place changes what the next kernel sees.  Fuel
+    flows may be zero or negative here (idle descent, bad data): that is where the kernels floor them."""
+    which = h.choice(2)
+    n = h.int('n_points')
+    h.assume(n >= 1)
+    ff = SArr.symbolic(h.ctx, 'fuel_flow', n)
+    ff0 = ff.snapshot()
+    ei, eic, TM = tmv(h, 'EI')
+    ffc, fc, _ = tmv(h, 'ff_cal')
+    names = [m.name for m in TM.members]
+    h.I.hooks['assume_defined'] = {'AEIC.emissions.ei.nox:BFFM2_EINOx': 'as in the bffm2.nox unit (definedness is that unit\'s business)'}
+    if which == 0:
+        T = SArr.symbolic(h.ctx, 'Tamb', n, where=lambda v: z3.And(v > 200, v < 320))
+        P = SArr.symbolic(h.ctx, 'Pamb', n, where=lambda v: z3.And(v > 2000, v <= 110000))
+        xs = [F_LOG10(fc[m]) for m in names]
+        h.assume(z3.Not(z3.And(*[xs[0] == x for x in xs[1:]])), 'calibration fuel flows not all equal (log-log fit defined)')
+        fn, args = 'AEIC.emissions.ei.nox:BFFM2_EINOx', (ff, ei, ffc, T, P)
+    else:
+        T, P = h.real('Tamb'), h.real('Pamb')
+        h.assume(z3.And(T > 0, P > 0), 'ambient temperature and pressure positive')
+        fn, args = 'AEIC.emissions.ei.hcco:EI_HCCO', (ff, ei, ffc, T, P)
+    h.ctx.named['kernel'] = z3.StringVal(fn.split(':')[1])
+    try:
+        call(h, fn, *args)
+    except PyExc:
+        return              # definedness and refusals are the business of the kernel's own unit
+    k = generic_k(h, n)
+    # (discharged from the index range alone: what the array holds now against what it held, nothing of the fit is needed)
+    h.ensure_from('argument-array-unchanged', z3.And(to_z3(h.I.len_(ff)) == n, to_real(ff.at(k)) == to_real(ff0.at(k))),
+                  [k >= 0, k < n, n >= 1], note=fn + ' wrote into the fuel-flow array it was given')
+    now_e, now_c = ei.attrs['_data'], ffc.attrs['_data']
+    h.ensure_from('certification-tables-unchanged',
+                  z3.And(*[to_real(now_e[m]) == to_real(eic[m.name]) for m in now_e], *[to_real(now_c[m]) == to_real(fc[m.name]) for m in now_c])
+                  if set(m.name for m in now_e) == set(names) and set(m.name for m in now_c) == set(names) else z3.BoolVal(False),
+                  [v > 0 for v in list(eic.values()) + list(fc.values())])
+
+
+def replay_frame(payload):
+    """Native: the production sequence NOx -> HC on one fuel-flow array with zero and negative entries; the array must come
+    back unchanged from each kernel and HC must equal HC computed on a pristine copy."""
+    import numpy as np
+    from AEIC.emissions.ei.hcco import EI_HCCO
+    from AEIC.emissions.ei.nox import BFFM2_EINOx
+    from AEIC.performance.types import ThrustModeValues
+    problems = []
+    ff = np.array([0.0, 0.3, -0.1, 0.9, 0.0, 1.4])
+    pristine = ff.copy()
+    cal = ThrustModeValues(0.1, 0.3, 0.9, 1.1)
+    nox = ThrustModeValues(4.0, 9.0, 20.0, 27.0)
+    hc = ThrustModeValues(2.0, 0.4, 0.1, 0.08)
+    T, P = np.full(ff.size, 250.0), np.full(ff.size, 40000.0)
+    want_hc = EI_HCCO(pristine.copy(), hc, cal, 250.0, 40000.0)
+    BFFM2_EINOx(ff, nox, cal, T, P)
+    if not np.array_equal(ff, pristine):
+        problems.append(f'BFFM2_EINOx changed the fuel-flow array it was given: {pristine.tolist()} -> {ff.tolist()}')
+    got_hc = EI_HCCO(ff, hc, cal, 250.0, 40000.0)
+    if not np.array_equal(ff, pristine) and not problems:
+        problems.append(f'EI_HCCO changed the fuel-flow array it was given: {pristine.tolist()} -> {ff.tolist()}')
+    if not np.allclose(got_hc, want_hc, rtol=1e-12, atol=0, equal_nan=True):
+        problems.append(f'HC index after the NOx kernel ran on the same array: {got_hc.tolist()}, on a pristine copy: {want_hc.tolist()}')
+    return dict(reproduced=bool(problems), observed=problems[:3], required='kernels leave their arguments unchanged')
+
+
 def replay_hcco(payload):
     r = native_sample(dict(seed=2, n=80))
     bad = [v for v in r.get('violations', []) if 'EI_HCCO' in v['what']]
